@@ -30,6 +30,7 @@ type TreeLine struct {
 	T      conc.ATree `json:"t"`
 	Pruned conc.ATree `json:"pruned"`
 	Built  conc.ATree `json:"built"`
+	Pcf    conc.ATree `json:"pcf"`
 }
 
 // TreesCase is the replayable case.
@@ -529,6 +530,51 @@ func runTreeLaw(l *TreeLine, pkg *reg.Pkg, x *conc.Ctx, mode string, res *rep.Re
 		}
 		if b := conc.Restrict(abs.Project(r2, pkg), x.V); len(abs.Diff(b, orig, false)) > 0 {
 			res.Violate("C14", sig("C14", "build-prune"), "BuildEmptyTree+PruneEmptyBranches changed the leaf set: "+strings.Join(abs.Diff(b, orig, false), "; "), tc)
+		}
+	case "c32":
+		// the plain shape also carries the unkeyed state list st/ul (derived state as well)
+		if len(l.T.Ct) > 0 || len(l.T.Lv) > 0 {
+			for _, ct := range l.T.Ct {
+				if len(ct) == 1 && ct[0] == "st" {
+					augmentUnkeyed(root, pkg, x)
+				}
+			}
+		}
+		sch, err := rootSchema(pkg)
+		if err != nil {
+			res.InfraErr("schema: %v", err)
+			return
+		}
+		perr, pan := guard(func() error { return ygot.PruneConfigFalse(sch, root) })
+		if pan != "" {
+			res.Violate("C20", sig("C20", "panic"), "panic in PruneConfigFalse: "+firstLine(pan), tc)
+			return
+		}
+		if perr != nil {
+			res.Violate("C32", sig("C32", "error"), fmt.Sprintf("PruneConfigFalse failed: %v", perr), tc)
+			return
+		}
+		want, err := x.Tree(&l.Pcf)
+		if err != nil {
+			res.Skip(1)
+			return
+		}
+		want = conc.Restrict(want, x.V)
+		got := conc.Restrict(abs.Project(root, pkg), x.V)
+		if d := abs.Diff(observable(got, x, false), observable(want, x, false), false); len(d) > 0 {
+			s := sig("C32", "config-false")
+			for _, dl := range d {
+				if strings.HasPrefix(dl, "unexpected") {
+					s["conjunct"] = "derived-state-remains"
+				} else if s["conjunct"] == "config-false" {
+					s["conjunct"] = "config-value-lost"
+				}
+			}
+			res.Violate("C32", s, fmt.Sprintf("after PruneConfigFalse: %s (tree before: %v)", strings.Join(d, "; "), orig.LeafLines()), tc)
+			return
+		}
+		if d := abs.Diff(got, want, true); len(d) > 0 {
+			res.DriftNote("containers after PruneConfigFalse differ from the model: " + strings.Join(d, "; "))
 		}
 	case "c04":
 		// every tree also carries an unkeyed list (config false st/ul) with two elements and,
